@@ -96,6 +96,8 @@ func TestC09(t *testing.T) {
 		r.Op(fmt.Sprintf("block %d %d", b.Height, len(b.Txs)), out)
 		r.Stat("scenario.early_evidence")
 	}
+	// directed scenarios: hostile evidence of every shape for every kind of request
+	c09EvidenceScenarios(t, r)
 	for c := 0; c < r.N; c++ {
 		seed := r.Rng.Int63()
 		rng := rand.New(rand.NewSource(seed))
